@@ -544,6 +544,10 @@ nni_dialer_setopt(
 		int rv;
 		nni_mtx_lock(&d->d_mtx);
 		rv = nni_copyin_ms(&d->d_maxrtime, val, sz, t);
+		if (rv == 0) {
+			// restart the back-off, as for RECONNMINT below
+			d->d_currtime = d->d_inirtime;
+		}
 		nni_mtx_unlock(&d->d_mtx);
 		return (rv);
 	}
